@@ -8,6 +8,7 @@ from .units.w import UnitW
 from .units import w_replay
 from .units.k import UnitK
 from .units import k_replay
+from .units import l3run
 from .units import r_replay
 
 
@@ -184,6 +185,88 @@ PROPS['C14'] = {
     'assumptions': ['keyword lists in contracts/keywords.json transcribe the Rust reference (edition 2024)'],
 }
 
+
+def l3_extra(pid, tier, seed, runs):
+    return l3run.run_concern(pid, tier, seed, runs)
+
+
+def l3_witness(pid, fails, repo):
+    """replay for an L3 disagreement: re-run the current generator on that schema and show the emitted item next to the expectation"""
+    import os, re
+    from .l3.specgen import Emitted
+    from . import l3gen
+    f = fails[0]
+    prog = next((e['text'] for e in f.exits if e.get('what') == 'program'), None)
+    out = {'found': False, 'program': prog}
+    if not prog:
+        return out
+    path = os.path.join(os.path.dirname(os.path.dirname(os.path.abspath(__file__))), prog)
+    g = l3gen.generate([path], repo)[path]
+    out['generator_status'] = g['status']
+    if g['status'] != 'OK':
+        return out
+    em = Emitted(g['out'])
+    m = re.search(r'(?:shape:|sig:|emitted::)(?:(\w+)::)?(\w+)', f.obligation)
+    names = [x for x in (m.groups() if m else ()) if x]
+    shown = []
+    for it in em.items:
+        for c in ([it] + list(it.children)):
+            if c.kind in ('struct', 'impl', 'fn', 'type') and any(n and (n == c.name or n in c.name.split()) for n in names):
+                shown.append(c.text[:1500])
+            for cc in c.children:
+                if cc.kind == 'fn' and any(n == cc.name for n in names):
+                    shown.append(cc.text[:800])
+    out['emitted_items'] = shown[:6]
+    out['schema'] = open(path, encoding='utf-8').read()[:6000]
+    out['expectation'] = f.message
+    out['found'] = bool(shown) or f.obligation.startswith('index:')
+    out['input'] = {'schema_file': prog, 'disagreeing_item': f.obligation}
+    return out
+
+
+PROPS['C07']['extra'] = l3_extra
+PROPS['C07']['witness'] = l3_witness
+PROPS['C07']['scope'] = ('(a) every emitted `impl restrictions::CheckRestrictions for X` of every corpus program returns Ok exactly when the value '
+                         'satisfies the facets the schema declares for its type, at every depth and through Option/Vec (proof per program, all values); '
+                         '(b) transmission half: a request that fails its check yields an error and no network-capable call is reachable before the check passed')
+PROPS['C07']['level_text'] = ('(a) Per corpus program, the code EMITTED by the current generator is verified by Verus/Z3 against `sat`/`dom` predicates that an '
+                              'independent schema reader derives from the XSD: for ALL values of each generated type, check_restrictions is Ok iff every declared '
+                              'facet holds (inherited facets of derived simple types included), composing through struct members, Option and Vec up to the '
+                              'request envelope. The quantifier over schemas is the corpus (12 hand-written programs; generated family in the thorough tier). '
+                              '(b) ' + PROPS['C07']['level_text'])
+PROPS['C07']['level_note'] += (' L3: contracts of the helper runtime are imported from units R and S (proved there). Stand-ins for yaserde derives. '
+                               'Known finding: own facets of a simple type derived from a named simple type are not enforced.')
+
+PROPS['C02'] = {
+    'units': [], 'level': 'translation_validation', 'design_ref': 'DESIGN.md 4.2', 'extra': l3_extra, 'witness': l3_witness,
+    'scope': 'shape of the emitted structs per corpus program: one struct per named complex/simple type and anonymous-typed global element, in the '
+             'module of its namespace, with exactly the declared members (inherited first), names in snake_case (keywords respelled), wrapped '
+             'T / Option<T> / Vec<T> by occurrence, typed by the reference mapping of DESIGN 2.2',
+    'level_text': 'Translation validation with contracts: for each corpus program the independent reader derives a ghost "shape contract" per expected '
+                  'struct (an exhaustive destructuring pattern with the expected member names and a typed tuple of the expected member types); '
+                  'the contract is checked against the text the current generator emits by Verus\' front end (rustc type checking of ghost code). '
+                  'A type error inside a shape contract is the disagreement. Per program, not for all schemas.',
+    'level_note': 'The deciding step is rustc\'s type checker inside Verus, not an SMT obligation (reported as translation_validation, never as proof). '
+                  'Trusted: the independent reader (vp/l3/model.py) and its PascalCase/snake_case rules, valid for the corpus vocabulary. '
+                  'Not covered: schemas outside the corpus, derive-generated (de)serialisers, the L2 table/flag contracts of DESIGN 4.2 (not built).',
+    'technique': 'schema-derived ghost shape contracts type-checked by Verus against the code emitted by the current generator',
+    'assumptions': ['independent schema reader implements DESIGN 2.1/2.2 faithfully', 'corpus names are in the vocabulary whose case conversion is unambiguous'],
+}
+PROPS['C05'] = {
+    'units': [], 'level': 'translation_validation', 'design_ref': 'DESIGN.md 4.5', 'extra': l3_extra, 'witness': l3_witness,
+    'scope': 'per corpus WSDL: the service constructor posts to the port address (SMT obligation on the emitted constructor), one async method per '
+             'operation with the request/response envelope signature (type-checked signature obligations), envelope/header/body struct shapes',
+    'level_text': 'Translation validation with contracts on the emitted client: `Service::new` is verified against `ensures res.location@ == <address '
+                  'read from the WSDL by the independent reader> && res.credentials == credentials` (Verus/Z3); for each operation a generated '
+                  'never-called function `sig_<op>` calls the emitted method with the expected request envelope and result type, and shape contracts '
+                  'pin Envelope { header?, body }, the single body member and one Option member per bound header part. Per program.',
+    'level_note': 'Signature and shape obligations are decided by rustc type checking inside Verus. Not covered: element QNames on the wire (yaserde '
+                  'attribute text), absence of EXTRA methods, the POST itself (C16), forwarding of credentials by the emitted closure. '
+                  'Known finding: one-way operations do not type-check ((): YaDeserialize).',
+    'technique': 'constructor postcondition (Verus/Z3) + signature/shape contracts type-checked by Verus on the emitted client',
+    'assumptions': ['independent WSDL reader', 'reqwest/yaserde stand-ins'],
+}
+
 PLANNED = 'claimed in DESIGN.md but the check is not built yet at this commit (listed here so that no unbuilt check is advertised)'
 NOT_APPLICABLE = {
     'C01': 'Compilability of a whole emitted file is decided by rustc name resolution/type checking and yaserde_derive proc-macro expansion; no pre/postcondition of a zeep function entails it and Verus cannot load the dependency crates (DESIGN 4.1).',
@@ -193,7 +276,7 @@ NOT_APPLICABLE = {
     'C12': 'Determinism across processes/hash seeds/registration orders is a hyperproperty over pairs of runs (HashMap RandomState, flags persisting across calls); not expressible as a per-call contract without a complete functional spec of the generator (DESIGN 4.12).',
     'C17': 'Process-level observables (exit status, panics as error path, clap, File::create effects); no function result to attach a postcondition to and no file-system model in Verus/Kani (DESIGN 4.17).',
     'C18': 'Send/Sync are auto traits decided by rustc\'s trait solver over the real reqwest future types; neither verifier has a notion of auto traits (DESIGN 4.18).',
-    'C02': PLANNED, 'C05': PLANNED, 'C08': PLANNED, 'C09': PLANNED, 'C10': PLANNED,
+    'C08': PLANNED, 'C09': PLANNED, 'C10': PLANNED,
     'C13': PLANNED,
 }
 NOTES = ('All checks: ./check <id> [--tier quick|thorough]; exit 0 ok, 1 VIOLATION, 2 inconclusive (lost anchor / unsupported '
